@@ -1174,6 +1174,12 @@ def run(ctx):
         shutil.rmtree(workdir, ignore_errors=True)
 
 
+def dbg(msg):
+    if os.environ.get("VERIF_DEBUG"):
+        sys.stderr.write("[c05 %.1f] %s\n" % (time.time() % 10000, msg))
+        sys.stderr.flush()
+
+
 def _run(ctx, drv, pdrv, workdir, t0):
     rng = random.Random(ctx.seed * 1000003 + 5)
     thorough = ctx.tier == "thorough"
@@ -1187,8 +1193,11 @@ def _run(ctx, drv, pdrv, workdir, t0):
         scale *= 2          # §4.4 step 3: a tie or an obligation broke -> search with a larger budget
     cases = build_search_cases(ctx, rng, workdir, scale)
     t_gen = time.time()
+    dbg("running %d cases" % len(cases))
     obs = run_cases(drv, cases, workdir, timeout=10 if not thorough else 20)
+    dbg("classifying")
     verdicts = classify(list(obs.values()))
+    dbg("judging")
     t_run = time.time()
     by_class, by_verdict = {}, {}
     findings = {}          # key -> list of (case, obs, what)
@@ -1272,6 +1281,7 @@ def _run(ctx, drv, pdrv, workdir, t0):
         lst = findings[key]
         c, o, what = min(lst, key=lambda t: len(t[0].data))
         data, tested = c.data, 0
+        dbg("finding %s: %d cases, smallest %d bytes (%s)" % (key, len(lst), len(c.data), c.id))
         if key not in known and shrink_budget > 0 and key is not None and len(c.data) > 12 and not c.cls.startswith("use:"):
             shrink_budget -= 1
             data, tested = shrink(drv, workdir, c, key, budget_rounds=16 if thorough else 10)
